@@ -242,83 +242,114 @@ func (e *Engine) padModel(m Model, ts ...*Term) Model {
 	return full
 }
 
-// havoc overwrites every mutable scalar cell reachable from v with fresh symbols.
+// havoc overwrites every settable cell reachable from the interface value v with fresh symbols, following
+// reflect's rules (the native twin is verifHavoc in the harness support): pointers, slices, arrays, maps and
+// exported struct fields are traversed; everything below an unexported field is read-only.
 func (e *Engine) havoc(st *State, v Value) {
+	iv, ok := v.(IfaceV)
+	if !ok || iv.T == nil {
+		return
+	}
 	seen := map[ObjID]bool{}
-	var fresh func(x Value) Value
-	var visit func(x Value)
-	fresh = func(x Value) Value {
-		switch t := x.(type) {
-		case *Term:
-			return e.tc.Fresh("havoc", t.Sort)
-		case StructV:
-			f := make([]Value, len(t.F))
+	var fresh func(x Value, t types.Type) Value
+	var follow func(x Value, t types.Type)
+	// fresh: a new value for a settable cell of type t currently holding x
+	fresh = func(x Value, t types.Type) Value {
+		if e.isTimeType(t) {
+			return x
+		}
+		switch u := t.Underlying().(type) {
+		case *types.Basic:
+			switch tv := x.(type) {
+			case *Term:
+				return e.tc.Fresh("havoc", tv.Sort)
+			case StrV:
+				if tv.Opaque {
+					return x
+				}
+				b := make([]*Term, len(tv.B))
+				for i := range b {
+					b[i] = e.tc.Fresh("havoc", SBV(8))
+				}
+				return StrV{B: b}
+			}
+			return x
+		case *types.Struct:
+			sv, ok := x.(StructV)
+			if !ok {
+				return x
+			}
+			f := make([]Value, len(sv.F))
 			for i := range f {
-				f[i] = fresh(t.F[i])
+				if u.Field(i).Exported() {
+					f[i] = fresh(sv.F[i], u.Field(i).Type())
+				} else {
+					f[i] = sv.F[i]
+				}
 			}
 			return StructV{F: f}
-		case ArrayV:
-			f := make([]Value, len(t.E))
+		case *types.Array:
+			av, ok := x.(ArrayV)
+			if !ok {
+				return x
+			}
+			f := make([]Value, len(av.E))
 			for i := range f {
-				f[i] = fresh(t.E[i])
+				f[i] = fresh(av.E[i], u.Elem())
 			}
 			return ArrayV{E: f}
-		case StrV:
-			if t.Opaque {
-				return t
-			}
-			b := make([]*Term, len(t.B))
-			for i := range b {
-				b[i] = e.tc.Fresh("havoc", SBV(8))
-			}
-			return StrV{B: b}
-		case TimeV:
-			return t
 		default:
-			visit(x)
+			follow(x, t)
 			return x
 		}
 	}
-	visit = func(x Value) {
-		switch t := x.(type) {
-		case IfaceV:
-			if t.T != nil {
-				visit(t.V)
-			}
-		case PtrV:
-			if t.IsNil() || seen[t.Obj] {
+	// follow: x is a reference (pointer / slice / map / interface): scribble over what it refers to
+	follow = func(x Value, t types.Type) {
+		switch u := t.Underlying().(type) {
+		case *types.Pointer:
+			p, ok := x.(PtrV)
+			if !ok || p.IsNil() {
 				return
 			}
-			seen[t.Obj] = true
-			st.heap[t.Obj] = fresh(e.obj(st, t.Obj))
-		case SliceV:
-			if t.Nil || seen[t.Obj] {
+			key := p.Obj
+			if seen[key] && len(p.Path) == 0 {
 				return
 			}
-			seen[t.Obj] = true
-			st.heap[t.Obj] = fresh(e.obj(st, t.Obj))
-		case MapV:
-			if t.Obj == 0 || seen[t.Obj] {
+			seen[key] = true
+			cur := e.load(st, PtrV{Obj: p.Obj, Path: p.Path})
+			e.store(st, PtrV{Obj: p.Obj, Path: p.Path}, fresh(cur, u.Elem()))
+		case *types.Slice:
+			sl, ok := x.(SliceV)
+			if !ok || sl.Nil {
 				return
 			}
-			seen[t.Obj] = true
-			mo := e.mapObj(st, t)
+			n, ok := e.resolveLen(st, sl.Len)
+			if !ok {
+				panic(unsupported("havoc of a slice with symbolic length"))
+			}
+			for i := 0; i < n; i++ {
+				p := PtrV{Obj: sl.Obj, Path: appendPath(sl.Path, PathElem{I: sl.Off + i})}
+				e.store(st, p, fresh(e.load(st, p), u.Elem()))
+			}
+		case *types.Map:
+			m, ok := x.(MapV)
+			if !ok || m.Obj == 0 || seen[m.Obj] {
+				return
+			}
+			seen[m.Obj] = true
+			mo := e.mapObj(st, m)
 			out := &MapObj{KeyT: mo.KeyT, ValT: mo.ValT}
 			for _, en := range mo.E {
-				out.E = append(out.E, MapEntry{K: en.K, V: fresh(en.V), Present: e.tc.Fresh("havoc", SBool)})
+				out.E = append(out.E, MapEntry{K: en.K, V: fresh(en.V, u.Elem()), Present: en.Present})
 			}
-			st.heap[t.Obj] = out
-		case StructV:
-			for _, f := range t.F {
-				visit(f)
-			}
-		case ArrayV:
-			for _, f := range t.E {
-				visit(f)
+			st.heap[m.Obj] = out
+		case *types.Interface:
+			if iv, ok := x.(IfaceV); ok && iv.T != nil {
+				follow(iv.V, iv.T)
 			}
 		}
 	}
-	visit(v)
+	follow(iv.V, iv.T)
 }
 
 var _ = types.Identical
